@@ -5,8 +5,8 @@
    UNBOUNDED on a fragment (C03_fragment_parses): for every tree - any number of blocks, any
    depth - built from one-line plain paragraphs, fenced code blocks (` or ~ fences of any length, any content lines),
    block quotes and single-item lists (markers
-   + - * and 1-9 digits with . or ), padding 1-4), siblings separated by one blank line, a
-   list being the last of its siblings, the block tokenizer returns on the spelled text exactly
+   + - * and 1-9 digits with . or ), padding 1-4), siblings separated by one blank line, two
+   lists never being adjacent siblings, the block tokenizer returns on the spelled text exactly
    the pre-token tree written from the tree: kinds, nesting, the line every block starts on,
    list attributes, loose flags.  wf_b is a computable well-formedness predicate (plain lines,
    tab-free, no marker / thematic-break coincidence).  The proof composes the laws of C04, C05
@@ -47,9 +47,9 @@ Print Assumptions C03_fragment_parses.
 Theorem C03_fragment_hypotheses :
   forallb (fun c => fragment_config (cfg_block c)) [cfg_html; cfg_html_nohtml; cfg_latex; cfg_mathjax; cfg_default] = true /\
   (let fence := FFence 96 3 [SLine 2 120 $" = 1"; SBlank; SLine 0 35 $" not a heading"] in
-   let t1 := FItem (MBullet 45) 2 [FPara 97 $"b"; FQuote [FPara 99 $"d"; FItem (MOrdered $"12" 41) 1 [FPara 101 []; fence]]; FPara 102 []] in
+   let t1 := FItem (MBullet 45) 2 [FPara 97 $"b"; FQuote [FPara 99 $"d"; FItem (MOrdered $"12" 41) 1 [FPara 101 []; fence]; FPara 103 []]; FPara 102 []] in
    let t2 := FQuote [FQuote [FPara 97 []]; fence; FPara 98 []; t1] in
-   wf_b t2 = true /\ depth t2 = 4%nat /\ length (spell t2) = 23%nat /\
+   wf_b t2 = true /\ depth t2 = 4%nat /\ length (spell t2) = 25%nat /\
    text_of (spell (FItem (MOrdered $"12" 41) 1 [FPara 101 []; fence])) =
      [ $"12) e" ++ [10]; [10]; $"    ```" ++ [10]; $"      x = 1" ++ [10]; [10]; $"    # not a heading" ++ [10]; $"    ```" ++ [10] ]).
 Proof. split; [exact fragment_configs|exact fragment_instance]. Qed.
